@@ -758,7 +758,7 @@ func runProbeCase(c *core.Ctx, k probeCase, prop string) {
 				continue
 			}
 			if len(data) > 0 {
-				cc.Write(data)
+				c05WriteSplit(cc, data)
 			}
 			if p.EOF {
 				cc.CloseWrite()
